@@ -253,6 +253,10 @@ func (x *Exec) callContract(fr *Frame, st *State, ins ssa.Instruction, u *FuncUn
 	}
 	// effects
 	x.applyEffects(st, u, callee)
+	if len(u.C.Steps) > 0 {
+		// the callee performs atomic steps of its own: the caller's step counter is unknown afterwards
+		x.havocClass(st, "g:adrop", x.tb.Array(x.tb.BV(64), x.tb.BV(64)))
+	}
 	// results
 	res := x.freshVal(resT, "r_"+u.Key)
 	x.assumeWF(st, resT, res.L)
@@ -653,6 +657,11 @@ func (x *Exec) special(fr *Frame, st *State, ins ssa.Instruction, callee *ssa.Fu
 				h := x.heapGet(st, "g:"+nm, tb.Array(tb.BV(64), tb.BV(64)))
 				return Val{T: resT, L: []*Term{tb.Select(h, ref)}}, true
 			}
+		case "atomicDrop":
+			if isSpecBody(callee) {
+				h := x.heapGet(st, "g:adrop", tb.Array(tb.BV(64), tb.BV(64)))
+				return Val{T: resT, L: []*Term{tb.Select(h, tb.BVInt(0, 64))}}, true
+			}
 		case "arrID":
 			if isSpecBody(callee) {
 				return Val{T: resT, L: []*Term{args[0].L[0]}}, true
@@ -825,6 +834,36 @@ func (x *Exec) special(fr *Frame, st *State, ins ssa.Instruction, callee *ssa.Fu
 func (x *Exec) ghostAtomic(fr *Frame, st *State, ins ssa.Instruction, kind string, old, nw *Term) {
 	// transitions are recorded in frame-independent ghost list on the exec
 	x.atomicSteps = append(x.atomicSteps, atomicStep{kind: kind, old: old, nw: nw, reach: st.reach, fr: fr, ins: ins})
+	tb := x.tb
+	o64, n64 := tb.ZExt(old, 64), tb.ZExt(nw, 64)
+	// every read-modify-write must satisfy the unit's atomic-step predicates
+	if x.unit != nil && x.top != nil && !fr.spec {
+		var args []Val
+		args = append(args, x.top.args...)
+		args = append(args, x.top.oldVals...)
+		u64 := types.Typ[types.Uint64]
+		args = append(args, Val{T: u64, L: []*Term{o64}}, Val{T: u64, L: []*Term{n64}})
+		for k, fn := range x.unit.Steps {
+			if fn == nil {
+				continue
+			}
+			res := x.runSpec2(fn, st, x.entry, args)
+			lbl := fmt.Sprintf("step%d", k)
+			if x.unit.C.Steps[k].Label != "" {
+				lbl = x.unit.C.Steps[k].Label
+			}
+			save := x.curProps
+			if len(x.unit.C.Steps[k].Props) > 0 {
+				x.curProps = x.unit.C.Steps[k].Props
+			}
+			x.addObl(fr, st, "atomic", ins, lbl, res.L[0])
+			x.curProps = save
+		}
+	}
+	// ghost: total decrease so far
+	h := x.heapGet(st, "g:adrop", tb.Array(tb.BV(64), tb.BV(64)))
+	z := tb.BVInt(0, 64)
+	x.heapSet(st, "g:adrop", tb.Store(h, z, tb.Add(tb.Select(h, z), tb.Sub(o64, n64))))
 }
 
 type atomicStep struct {
